@@ -19,6 +19,9 @@ use std::path::{Path, PathBuf};
 
 pub const VERIF_ROOT: &str = "/verif";
 
+/// shard index of this worker process (0 in replay mode)
+pub static SHARD: std::sync::atomic::AtomicU32 = std::sync::atomic::AtomicU32::new(0);
+
 #[derive(Copy, Clone, Debug, PartialEq, Eq, Serialize, Deserialize)]
 #[serde(rename_all = "lowercase")]
 pub enum Tier {
